@@ -232,8 +232,10 @@ def subs_tags(a, vals):
         elif isinstance(v, E) and v.tag in ("variable", "slice"):
             (n,) = v.inputs
             renames.append((k, n, v.tag))
-        if isinstance(v, E) and any(n in vals and n in a.inputs for n in v.inputs) and v.tag not in ("variable", "slice"):
-            tags.add("subs-value-mentions-key")
+        names = list(v.inputs) if isinstance(v, E) else ([v] if isinstance(v, str) else [])
+        identity = len(names) == 1 and names[0] == k and (isinstance(v, str) or v.tag == "variable")
+        if not identity and any(n in vals and n in a.inputs for n in names):
+            tags.add("subs-value-mentions-key")  # a value mentions a name that is being substituted
         if isinstance(v, E) and v.tag == "binary" and v.op in COMPARISONS:
             tags.add("bool-index")
         if isinstance(v, E) and v.tag == "slice" and a.tag == "cat":
